@@ -40,6 +40,7 @@ type FuncFacts struct {
 	callGroups map[string][]*ssa.Call
 	inOrdinal  map[*ssa.Call]bool
 	idiomBound map[*ssa.BinOp]Interval
+	noRet      map[*ssa.BasicBlock]bool
 }
 
 // Atom is one condition that holds at a program point.
@@ -215,6 +216,9 @@ func (ff *FuncFacts) reachFrom(from, avoid *ssa.BasicBlock) map[*ssa.BasicBlock]
 				continue
 			}
 			m[n] = true
+			if ff.noReturn(n) {
+				continue // control does not continue past log.Panic / Fatal / os.Exit
+			}
 			stack = append(stack, n.Succs...)
 		}
 	}
@@ -628,6 +632,13 @@ func (ff *FuncFacts) Exits() []Exit {
 		}
 		if b == fn.Recover {
 			continue // synthetic block executed only after a recovered panic
+		}
+		if !ff.reachFrom(fn.Blocks[0], nil)[b] {
+			continue // only reachable through a no-return call
+		}
+		if ff.noReturn(b) {
+			out = append(out, Exit{Kind: ExitPanic, Block: b, Pos: ff.condPos(b), Desc: "no-return call (log.Panic / Fatal)"})
+			continue
 		}
 		switch last := b.Instrs[len(b.Instrs)-1].(type) {
 		case *ssa.Panic:
@@ -1126,4 +1137,50 @@ func (ff *FuncFacts) PathFacts(T *ssa.BasicBlock, maxPaths int) (paths [][]strin
 	}
 	dfs(start)
 	return
+}
+
+// noReturn: the block contains a call that never returns normally (logger.Panic*,
+// log.Fatal*, os.Exit).  go/ssa only ends blocks at the panic builtin, so these are
+// modelled here.
+func (ff *FuncFacts) noReturn(b *ssa.BasicBlock) bool {
+	if v, ok := ff.noRet[b]; ok {
+		return v
+	}
+	res := false
+	for _, in := range b.Instrs {
+		c, ok := in.(*ssa.Call)
+		if !ok {
+			continue
+		}
+		if isNoReturnCallee(&c.Call) {
+			res = true
+		}
+	}
+	if ff.noRet == nil {
+		ff.noRet = map[*ssa.BasicBlock]bool{}
+	}
+	ff.noRet[b] = res
+	return res
+}
+
+func isNoReturnCallee(c *ssa.CallCommon) bool {
+	name := calleeName(c)
+	if name == "os.Exit" {
+		return true
+	}
+	i := strings.LastIndex(name, ".")
+	if i < 0 {
+		return false
+	}
+	meth := name[i+1:]
+	if !strings.HasPrefix(meth, "Panic") && !strings.HasPrefix(meth, "Fatal") {
+		return false
+	}
+	recv := name[:i]
+	switch {
+	case recv == "log", strings.HasPrefix(recv, "log."), strings.HasPrefix(recv, "logrus."), recv == "logrus",
+		strings.HasPrefix(recv, "util/logging."), strings.HasPrefix(recv, "iface:logrus."), strings.HasPrefix(recv, "iface:util/logging."):
+		return true
+	}
+	return false
 }
